@@ -38,6 +38,24 @@ def crc_fact(ip, st, crc_val, region_root, region_start, region_n):
         if not st.prove_eq0(n - region_n):
             return False, "checksum region does not end where the checksum field starts (%s vs %s)" % (st.describe(n), st.describe(region_n))
         return True, ""
+    # the same equality with the byte swap applied to the other side: swap_bytes(parsed) == checksum(region)
+    cands = list(st.rng) + [x for f in st.facts for x in f.syms()]
+    for s in cands:
+        d = ip.tab.defn(s)
+        if not d or d[0] != "swap_bytes" or not st.prove_eq0(d[1] - crc_val):
+            continue
+        for c in cands:
+            o = ip.tab.origin(c)
+            if not (isinstance(o, tuple) and o[0] == "crc_checksum") or not st.prove_eq0(Lin.sym(c) - Lin.sym(s)):
+                continue
+            _, root, steps, start, n = o
+            if root != region_root:
+                return False, "checksum computed over a different buffer"
+            if not st.prove_eq0(start - region_start):
+                return False, "checksum region does not start at the first byte of the message (%s vs %s)" % (st.describe(start), st.describe(region_start))
+            if not st.prove_eq0(n - region_n):
+                return False, "checksum region does not end where the checksum field starts (%s vs %s)" % (st.describe(n), st.describe(region_n))
+            return True, ""
     return False, "no established equality between the parsed checksum and swap_bytes(CRC_X25.checksum(..))"
 
 
